@@ -9,7 +9,8 @@ out=seeded/RESULTS.tsv
 for d in seeded/$pat/; do
   n=$(basename $d)
   [ -f $d/patch.diff ] || continue
-  id=$(python3 -c "import json,sys;print(json.load(open('$d/meta.json'))['breaks_property'])")
+  id=$(python3 -c "import json,sys;m=json.load(open('$d/meta.json'));print('OBSOLETE' if m.get('obsolete_since') else m['breaks_property'])")
+  [ "$id" = OBSOLETE ] && continue
   res=$(tools/mut.sh $d/patch.diff $id 2>&1 | grep "^== $id")
   ex=$(echo "$res" | sed 's/.*exit=\([0-9]*\).*/\1/')
   first=$(echo "$res" | sed 's/^== [^:]*:: //' | cut -c1-120)
